@@ -2,6 +2,7 @@
 //      re-imported cloud keys evaluate to bit-identical ciphertexts, re-imported secret keys decrypt identically.
 #include "gates.hpp"
 #include "iokinds.hpp"
+#include <thread>
 VH_MAIN_GLOBALS
 using namespace vh;
 
@@ -70,6 +71,41 @@ static void roundtrip_one(const Kind &k, int sz, IoGen &g) {
     }
     char cell[96]; snprintf(cell, sizeof cell, "%s:single:size%d", k.name.c_str(), sz); out.cell(cell);
     if (out.nsamples < 10 && rng.below(8) == 0) out.sample(J().s("kind", k.name).i("size_class", sz).u("export_bytes", s1.size()).s("head", s1.substr(0, 60)));
+}
+
+// thread hand-off histories: an imported object belongs to the program, not to the thread that happened to import it.
+// The import runs on a loader thread that has exited (and whose memory may have been recycled) before the object is compared,
+// re-exported and released on the main thread; and the other way round, the export runs on a writer thread.
+static void handoff(const Kind &k, int sz, IoGen &g) {
+    VH_OP("handoff:make:%s", k.name.c_str());
+    HP o = k.make(g, sz);
+    std::string s1;
+    { std::thread w([&] { VH_OP("handoff:export-on-writer-thread:%s", k.name.c_str()); s1 = to_stream_bytes([&](std::ostream &os) { k.exp_s(os, *o); }); }); w.join(); }
+    std::string s0 = to_file_bytes([&](FILE *f) { k.exp_f(f, *o); });
+    out.evaluations++;
+    if (s0 != s1) out.viol("io:" + k.name + ":transports-differ:writer-thread", J().s("kind", k.name).u("stream_bytes_on_writer_thread", s1.size()).u("file_bytes_on_main", s0.size()));
+    for (int tr = 0; tr < 2; tr++) {
+        HP im; bool good = true;
+        { std::thread ld([&] { VH_OP("handoff:import-on-loader-thread:%s:%s", k.name.c_str(), tr ? "file" : "stream");
+              if (tr == T_STREAM) { std::istringstream is(s1, std::ios::binary); im = k.imp_s(is, *o); good = (bool) is; }
+              else { FILE *f = fmemopen((void *) s1.data(), s1.size(), "rb"); im = k.imp_f(f, *o); fclose(f); } });
+          ld.join(); }
+        // other threads come and go, and allocate, before the object is used
+        for (int i = 0; i < 3; i++) { std::thread t([&] { std::vector<TorusPolynomial *> v; for (int j = 0; j < 8; j++) v.push_back(new_TorusPolynomial(1024)); for (auto *q: v) delete_TorusPolynomial(q);
+                                                          LweParams *lp = new_LweParams(7, 1e-3, 1e-2); delete_LweParams(lp); }); t.join(); }
+        VH_OP("handoff:use-on-main:%s:%s", k.name.c_str(), tr ? "file" : "stream");
+        out.evaluations++;
+        if (!im || !im->obj) { out.viol("io:" + k.name + ":import-returned-null", J().s("kind", k.name).i("transport", tr).s("history", "loader thread")); continue; }
+        if (!good) out.viol("io:" + k.name + ":stream-failed-on-valid-input", J().s("kind", k.name).s("history", "loader thread"));
+        std::string e = k.cmp(*o, *im);
+        if (!e.empty()) out.viol("io:" + k.name + ":object-imported-on-exited-thread-differs", J().s("kind", k.name).s("field", e).i("transport", tr).i("size_class", sz));
+        std::string s3 = tr == T_STREAM ? to_stream_bytes([&](std::ostream &os) { k.exp_s(os, *im); }) : to_file_bytes([&](FILE *f) { k.exp_f(f, *im); });
+        out.evaluations++;
+        if (s3 != s1) out.viol("io:" + k.name + ":reexport-differs:object-imported-on-exited-thread", J().s("kind", k.name).i("transport", tr).u("bytes", s1.size()).u("reexported_bytes", s3.size()));
+        // and released on yet another thread
+        { std::thread rel([&] { VH_OP("handoff:release-on-third-thread:%s", k.name.c_str()); im.reset(); }); rel.join(); }
+    }
+    char cell[96]; snprintf(cell, sizeof cell, "%s:handoff(writer/loader/main/releaser threads):size%d", k.name.c_str(), sz); out.cell(cell);
 }
 
 // 2..8 objects of mixed kinds written back-to-back into one stream and read back in order
@@ -167,6 +203,9 @@ int main(int argc, char **argv) {
         // the same kinds in reverse order: a long export (secret key set) now precedes shorter ones on the same thread,
         // so state kept by an exporter between calls (staging buffers, cached sections) shows up as differing bytes
         for (auto it = K.rbegin(); it != K.rend(); ++it) roundtrip_one(*it, 0, g);
+    } else if (mode == "handoff") {
+        for (auto &k: K) { bool heavy = k.name == "CloudKeySet" || k.name == "SecretKeySet"; for (int r = 0; r < (heavy ? (reps + 4) / 5 : reps); r++) handoff(k, r % 3 == 0 ? 0 : 1, g); }
+        out.sample(J().s("mode", "handoff").s("history", "export on a writer thread, import on a loader thread that exits, compare/re-export on main, release on a third thread"));
     } else if (mode == "sequence") {
         for (int r = 0; r < reps; r++) concatenated(K, g, r & 1);
     } else if (mode == "functional") {
